@@ -1116,6 +1116,7 @@ fn stream_batch(a: &Args, energy: bool, cache: bool) {
     let mut ctx = Ctx::new(&a.out, net_seed);
     ctx.energy = energy;
     ctx.cache = cache;
+    let cache_mode = cache;
     let mut rng = Rng::new(a.seed ^ 0xBA7C ^ if energy { 0xE0000 } else { 0 } ^ if cache { 0xC0000 } else { 0 });
     // ---- corpus first: witnesses of known findings (expansion cases)
     if let Some(dir) = corpus_dir(a) {
@@ -1150,8 +1151,15 @@ fn stream_batch(a: &Args, energy: bool, cache: bool) {
                     break;
                 }
                 // configured parallelism p, no override; then configured 2 with override p
-                batch_case(&mut st, &mut ctx, net_seed, &sub, &fs[..n], &order, &base(p, None), &mut cache, "size_vs_parallelism");
-                batch_case(&mut st, &mut ctx, net_seed, &sub, &fs[..n], &order, &base(2, Some(p)), &mut cache, "size_vs_override");
+                // (stream ecache: the termination variant selects the key precisions; alternate it)
+                let mut c1 = base(p, None);
+                let mut c2 = base(2, Some(p));
+                if cache_mode && n % 2 == 1 {
+                    c1.iter = true;
+                    c2.iter = true;
+                }
+                batch_case(&mut st, &mut ctx, net_seed, &sub, &fs[..n], &order, &c1, &mut cache, "size_vs_parallelism");
+                batch_case(&mut st, &mut ctx, net_seed, &sub, &fs[..n], &order, &c2, &mut cache, "size_vs_override");
             }
         }
         // configured parallelism 0: Err without override as soon as one query reaches the balancer
